@@ -3,6 +3,7 @@
 Terms:  'text' (plain str)  ('nil',) ('line',) ('softline',) ('hardline',)
         ('cat', (d..)) ('nest', i, d) ('group', d) ('ab', d) ('align', d) ('hang', i, d)
         ('ann', label, d) ('fc', when_broken, when_flat) ('fill', (d..))
+        ('lazy', d): contextual(fn) whose fn returns d - a plain str when d is text, a document otherwise (evaluated at layout time, as align / hang bodies are)
 Terms are hashable, JSON-able after to_json(), and never touch the package's classes, so the reference
 semantics in refsem.py works on them independently of the implementation.
 """
@@ -51,6 +52,9 @@ def _build(t, memo):
         return D.always_break(build(t[1]))
     if k == 'align':
         return D.align(build(t[1]))
+    if k == 'lazy':
+        inner = build(t[1])
+        return D.contextual(lambda indent, column, page_width, ribbon_width, _inner=inner: _inner)
     if k == 'hang':
         return D.hang(t[1], build(t[2]))
     if k == 'ann':
@@ -78,7 +82,7 @@ def from_json(j):
         return (k, j[1], from_json(j[2]))
     if k == 'fc':
         return (k, from_json(j[1]), from_json(j[2]))
-    if k in ('group', 'ab', 'align'):
+    if k in ('group', 'ab', 'align', 'lazy'):
         return (k, from_json(j[1]))
     return (k,)
 
@@ -97,7 +101,7 @@ def show(t):
         return 'annotate(%r, %s)' % (t[1], show(t[2]))
     if k == 'fc':
         return 'flat_choice(when_broken=%s, when_flat=%s)' % (show(t[1]), show(t[2]))
-    return '%s(%s)' % ({'ab': 'always_break'}.get(k, k), show(t[1]))
+    return '%s(%s)' % ({'ab': 'always_break', 'lazy': 'contextual(lambda *a: '}.get(k, k), show(t[1]) + (')' if k == 'lazy' else ''))
 
 
 def size(t):
@@ -110,7 +114,7 @@ def size(t):
         return 1 + size(t[2])
     if k == 'fc':
         return 1 + size(t[1]) + size(t[2])
-    if k in ('group', 'ab', 'align'):
+    if k in ('group', 'ab', 'align', 'lazy'):
         return 1 + size(t[1])
     return 1
 
@@ -125,7 +129,7 @@ def children(t):
         return (t[2],)
     if k == 'fc':
         return (t[1], t[2])
-    if k in ('group', 'ab', 'align'):
+    if k in ('group', 'ab', 'align', 'lazy'):
         return (t[1],)
     return ()
 
@@ -191,7 +195,10 @@ def rand_term(rng, depth=6, classic=False, labels=('A', 'B', 'C', 'ZERO', 'EMPTY
     if depth <= 0 or rng.random() < 0.25:
         c = rng.random()
         if c < 0.45:
-            return rng.choice(['a', 'bb', 'ccc', 'dddd', 'x' * rng.randint(1, 12), ' ', '', 'y' * rng.randint(13, 45), '  ', 'a b'])
+            text = rng.choice(['a', 'bb', 'ccc', 'dddd', 'x' * rng.randint(1, 12), ' ', '', 'y' * rng.randint(13, 45), '  ', 'a b'])
+            if rng.random() < 0.08:
+                return ('lazy', text)       # the same text, produced by a contextual function at layout time
+            return text
         if c < 0.65:
             return ('line',)
         if c < 0.8:
@@ -203,6 +210,8 @@ def rand_term(rng, depth=6, classic=False, labels=('A', 'B', 'C', 'ZERO', 'EMPTY
     if not classic:
         kinds += ['hang', 'fc', 'fill', 'fill']
     k = rng.choice(kinds)
+    if k == 'align' and rng.random() < 0.15:
+        return ('lazy', rand_term(rng, depth - 1, classic, labels))
     if k == 'cat':
         return ('cat', tuple(rand_term(rng, depth - 1, classic, labels) for _ in range(rng.choice([0, 1, 2, 2, 3, 3, 4, 5, 8]))))
     if k == 'fill':
